@@ -1407,6 +1407,7 @@ func ParseClassDeclareStmt(p *ParserZH) *syntax.ClassDeclareStmt {
 			cdStmt.GetterList = append(cdStmt.GetterList, stmt)
 		case TypeObjThisW:
 			stmt := parsePropertyDeclareStmt(p)
+			p.setStmtCurrentLine(stmt, tk)
 			cdStmt.PropertyList = append(cdStmt.PropertyList, stmt)
 		}
 	})
